@@ -759,9 +759,61 @@ class Desugar(ast.NodeTransformer):
         return node
 
 
+def _inline_nested_defs(fn):
+    """def f(..): <local def g(a): return E>  ... g(x) ...   ->  ... E[a := x] ...
+    for a nested one-expression function that reads, besides its parameters, only names the enclosing function
+    never rebinds (self, parameters, imports); the nested def is dropped when no reference is left"""
+    changed = False
+    stores = {}
+    for n in ast.walk(fn):
+        if isinstance(n, ast.Name) and isinstance(n.ctx, (ast.Store, ast.Del)):
+            stores[n.id] = stores.get(n.id, 0) + 1
+    for st in list(fn.body):
+        if not isinstance(st, ast.FunctionDef) or st.decorator_list:
+            continue
+        body = st.body
+        if body and isinstance(body[0], ast.Expr) and isinstance(body[0].value, ast.Constant):
+            body = body[1:]
+        a = st.args
+        if len(body) != 1 or not isinstance(body[0], ast.Return) or body[0].value is None or a.vararg or a.kwarg or \
+                a.kwonlyargs or a.defaults or a.posonlyargs:
+            continue
+        params = [x.arg for x in a.args]
+        expr = body[0].value
+        if any(isinstance(x, (ast.Lambda, ast.Yield, ast.YieldFrom, ast.Await, ast.NamedExpr, ast.ListComp, ast.SetComp,
+                              ast.DictComp, ast.GeneratorExp)) for x in ast.walk(expr)):
+            continue
+        free = {x.id for x in ast.walk(expr) if isinstance(x, ast.Name)} - set(params)
+        if any(stores.get(v, 0) > 0 for v in free) or st.name in free:
+            continue
+        if stores.get(st.name, 0) > 0:
+            continue
+        # all references must be plain calls with positional simple arguments
+        refs = [n for n in ast.walk(fn) if isinstance(n, ast.Name) and n.id == st.name]
+        calls = [n for n in ast.walk(fn) if isinstance(n, ast.Call) and isinstance(n.func, ast.Name) and
+                 n.func.id == st.name]
+        if len(refs) != len(calls) or not calls or any(
+                c.keywords or len(c.args) != len(params) or not all(_simple_arg(x) for x in c.args) for c in calls):
+            continue
+
+        class _Rep(ast.NodeTransformer):
+            def visit_Call(self, node):
+                self.generic_visit(node)
+                if isinstance(node.func, ast.Name) and node.func.id == st.name:
+                    env = dict(zip(params, node.args))
+                    return ast.copy_location(_Rename({}, env).visit(copy.deepcopy(expr)), node)
+                return node
+        fn.body = [s_ for s_ in fn.body if s_ is not st]
+        fn.body = [_Rep().visit(s_) for s_ in fn.body]
+        changed = True
+    return changed
+
+
 def desugar(fn_node, consts=None, cls_consts=None):
     d = Desugar(consts, cls_consts)
     new = copy.deepcopy(fn_node)
+    if _inline_nested_defs(new):
+        d.changed = True
     d.set_locals(new)
     new.body = [y for s in new.body for y in (lambda r: r if isinstance(r, list) else [r])(d.visit(s))]
     if not d.changed:
